@@ -46,6 +46,9 @@ func fmtVerb(t *rapid.T) (string, spec.V) {
 			arg = friendlyNum(t, "num")
 		case 1:
 			arg = boolv(t, "bool")
+		case 2:
+			// a string that starts with a combining mark: it joins the last character of the preceding literal
+			arg = lit(pickStr(t, "comb", "\u0301", "\u0308x", "\u0323\u0301", "\u200d\U0001F4BB", "\U0001F3FDa"))
 		default:
 			arg = str(t, "str")
 		}
@@ -59,7 +62,7 @@ func fmtVerb(t *rapid.T) (string, spec.V) {
 	return "%" + flags + width + prec + mode, arg
 }
 
-var fmtLiterals = []string{"", "", "a", " ", "x=", "\u00e9", "%%", "-", "e\u0301", "Hello, ", "100%% "}
+var fmtLiterals = []string{"", "", "a", " ", "x=", "e", "\U0001F469", "o", "\u00e9", "%%", "-", "e\u0301", "Hello, ", "100%% "}
 
 func formatArgs(t *rapid.T, list bool) []spec.V {
 	n := rapid.IntRange(0, 3).Draw(t, "nverbs")
